@@ -8,6 +8,7 @@ CONSTANTS
   PlusLocksKids = FALSE
   Scenario = "treegen"
   MaxTries = 9
+  RecheckName = TRUE
   LowestFree = TRUE
   OneOp = {}
 CHECK_DEADLOCK FALSE
